@@ -616,6 +616,15 @@ V("c18-n-stack-average", "C18", "pass", edits=[(MSU, _STK, "    pred_x = average
 V("c18-stack-rows-times-weights", "C18", "violation", "C18.R4", edits=[(MSU, _STK, "    pred_x = array([model.pred_x for model in models]).dot(model_weights)\n    est_x = array([model.est_x for model in models]).T.dot(model_weights)\n"), (MSU, "from __future__ import annotations\n", "from __future__ import annotations\n\nfrom numpy import array\n")])
 V("c18-stack-slots-swapped", "C18", "violation", "C18.R4", edits=[(MSU, "        pred_x += model.pred_x * weight\n        est_x += model.est_x * weight\n", "        pred_x += model.est_x * weight\n        est_x += model.pred_x * weight\n")])
 
+# ------------------------------------------------------------------------------------ C13.R9 constants
+PCN = "physics/constants.py"
+V("c13-speed-of-light-km", "C13", "violation", "C13.R9", edits=[(PCN, "SPEED_OF_LIGHT = 2.99792458e8", "SPEED_OF_LIGHT = 2.99792458e5")])
+V("c13-mu-digit-dropped", "C13", "violation", "C13.R9", edits=[("physics/bodies/earth.py", "    mu = 398600.4415", "    mu = 39860.4415")])
+V("c13-j3-sign", "C13", "violation", "C13.R9", edits=[("physics/bodies/earth.py", "    j3 = -2.53241051856772e-6", "    j3 = 2.53241051856772e-6")])
+V("c13-deg2rad-inverted", "C13", "violation", "C13.R9", edits=[(PCN, "DEG2RAD = pi / 180.0", "DEG2RAD = 180.0 / pi")])
+V("c13-n-mu-other-edition", "C13", "pass", edits=[("physics/bodies/earth.py", "    mu = 398600.4415", "    mu = 398600.4418")])
+V("c13-n-twopi-literal", "C13", "pass", edits=[(PCN, "TWOPI = 2.0 * pi", "TWOPI = pi + pi")])
+
 # ------------------------------------------------------------------------------------ memo soundness / cache coherence
 RED = "physics/transforms/reductions.py"
 _RED_OLD = "        if not eops:\n            eops = getEarthOrientationParameters(utc_date.date())\n\n        polar_motion = PolarMotion(eops.x_p, eops.y_p)\n        prec_nut = PrecessionNutation(\n            utc_date,"
